@@ -156,7 +156,7 @@ def check(case) -> CaseResult:
     arr_min = {i: s_end[i] + case["min"] for i in sent}
     # first exact tie (in time) on the trainable connection: nothing at or after it is asserted
     tie_t = onp.inf
-    for i in sent:
+    for i in ([] if case.get("exact_ties") else sent):  # exact_ties: dyadic scenario, float32 arithmetic is exact, ties are asserted
         for t in r_start:
             if abs(arr_d[i] - t) < 2e-6 or abs(arr_min[i] - t) < 2e-6:
                 tie_t = min(tie_t, t)
@@ -213,4 +213,16 @@ def check(case) -> CaseResult:
 
 
 def regressions():
-    return []
+    """Exact ties, asserted strictly: dyadic rates and delays (8 Hz, sender delay 1/16 s, d = 1/16 s in [0, 1/4]) make every
+    delayed arrival coincide with a receiver step start, and float32 arithmetic is exact for these values. A non-skipped
+    static connection hands such a message to that very step; so must the trainable one."""
+    det = lambda c: {"k": "det", "c": c}
+    out = []
+    for how in ("dist", "init_delays"):
+        spec = dict(
+            nodes=[dict(name="n0", rate=8, delay=det(0.0625), exp_delay=0.0, advance=False, scheduling="FREQUENCY"),
+                   dict(name="n1", rate=8, delay=det(0.0), exp_delay=0.0, advance=False, scheduling="FREQUENCY")],
+            conns=[dict(src="n0", dst="n1", blocking=False, skip=False, jitter="LATEST", window=2, delay=det(0.0), exp_delay=0.0)],
+            supervisor="n1", seed=1, episodes=[5], jit={}, cls="tie", carry=False)
+        out.append(dict(spec=spec, ci=0, min=0.0, max=0.25, d=0.0625, where="inside", how=how, ts_max=2.0, seed=1, mode="MCS", exact_ties=True))
+    return out
